@@ -33,6 +33,10 @@ type C12Step struct {
 	Mid  string `json:"mid"`
 	Rej  bool   `json:"rej,omitempty"`
 	Body string `json:"body,omitempty"`
+	// Hdrs (inbound): further header fields of the received message, name and
+	// value in the same quoting as Mid. A remote station chooses every header
+	// of what it sends, including the ones this library uses privately.
+	Hdrs [][2]string `json:"hdrs,omitempty"`
 }
 
 const c12root = "/sandbox/mbox"
@@ -125,6 +129,14 @@ func execC12(t *testing.T, prop string, raw json.RawMessage, trace bool) core.Ou
 					}
 					m.SetBody(body)
 					m.Header.Set(fbb.HEADER_MID, mid) // what a remote station puts on the wire
+					for k, h := range st.Hdrs {
+						name, val := unquoteMid(h[0]), unquoteMid(h[1])
+						if k >= 8 || name == "" || strings.ContainsAny(name, ":\r\n ") || strings.ContainsAny(val, "\r\n") || strings.EqualFold(name, fbb.HEADER_MID) {
+							continue
+						}
+						m.Header.Set(name, val)
+						sim.Probe("inbound-with-extra-header")
+					}
 					err := h.ProcessInbound(m)
 					res = fmt.Sprint("err=", err != nil)
 					if err != nil {
@@ -162,7 +174,7 @@ func execC12(t *testing.T, prop string, raw json.RawMessage, trace bool) core.Ou
 			if len(shown) < 10 {
 				shown = append(shown, fmt.Sprintf("%s(%s)", method, st.Mid))
 			}
-			if hostile(mid) && len(ops) > 0 {
+			if (hostile(mid) || len(st.Hdrs) > 0) && len(ops) > 0 {
 				out.NonTrivial = true
 			}
 			for _, o := range simfs.EscapesOf(ops, c12root) {
@@ -226,6 +238,15 @@ var c12segs = []string{"..", "..", "..", ".", "", "x", "MSG1", "mbox-evil", "mbo
 var c12directed = []string{"../../victim", "../../outside", "../../x", "../../mbox-evil/in/pwn", "../../mbox-evil/in/victim", "../../../etc/passwd", "../../../victim",
 	"../../out/victim", "../../in/victim", "../out/GOOD1", "../sent/GOOD1", "../../mbox2/in/x", "/etc/passwd", "/sandbox/victim", "..\\..\\victim", "..", "../..", "../../", "../../mbox",
 	"in/../../../victim", "x/../../../victim", "./../../victim", "..//..//victim", "../../victim.b2f", "", ".", "GOOD1", "NEWMSG000001"}
+
+// header names this library (or a relative of it) gives a private meaning to,
+// in several spellings, and paths for their values
+var c12hdrNames = []string{"X-FilePath", "X-Filepath", "x-filepath", "X-FILEPATH", "X-File-Path", "X-Path", "X-Unread", "X-P2ponly", "X-Folder", "X-Location",
+	"Content-Location", "File", "Filename", "X-Filename", "X-Attachment-Path", "X-Save-As", "X-Mailbox", "Mbo", "X-Mid", "Message-Id"}
+
+var c12hdrPaths = []string{"/sandbox/victim.b2f", "/sandbox/outside.b2f", "/sandbox/new.b2f", "/etc/passwd", "/etc/new", "/tmp/dropped.b2f", "/sandbox/mbox-evil/in/pwn.b2f",
+	"/sandbox/mbox-evil/in/victim.b2f", "../../victim.b2f", "../../../etc/passwd", "/sandbox/mbox/../victim.b2f", "/sandbox/mbox/in/../../victim.b2f", "/victim.b2f",
+	"/sandbox/mbox/in/INSIDE.b2f", "/sandbox/mbox/out/GOOD1.b2f", "/home/sim/.ssh/authorized_keys", "victim.b2f", "/sandbox/in/victim.b2f", "/sandbox/mbox2/in/x.b2f"}
 
 // encodedForm hides a traversal string behind an encoding that some later
 // "canonicalisation" step might undo after the MID was validated: RFC 2047
@@ -320,6 +341,28 @@ func genC12(tier string, r *core.Rand, run int) C12Plan {
 			st.K = "inbound"
 			if r.Chance(0.3) {
 				st.Body = genText(r, r.Range(1, 200))
+			}
+			if r.Chance(0.35) {
+				// header content chosen by the remote station, mostly with an
+				// unsuspicious MID so that the message is actually stored
+				if r.Chance(0.7) {
+					b := make([]byte, r.Range(1, 12))
+					for i := range b {
+						b[i] = alnum[r.Intn(len(alnum))]
+					}
+					st.Mid = string(b)
+				}
+				for k := r.Range(1, 3); k > 0; k-- {
+					name := core.Choice(r, c12hdrNames)
+					val := core.Choice(r, c12hdrPaths)
+					switch r.Pick(5, 2, 1) {
+					case 1:
+						val = genHostileMID(r)
+					case 2:
+						val = core.Choice(r, []string{"true", "false", "", "1"})
+					}
+					st.Hdrs = append(st.Hdrs, [2]string{quoteMid(name), quoteMid(val)})
+				}
 			}
 		case 1:
 			st.K = "answer"
